@@ -953,6 +953,92 @@ pub fn deep_prog(max_depth: u16) -> impl Strategy<Value = DeepProg> {
     (50u16..max_depth, 0u8..3, 0u8..9).prop_map(|(depth, style, out_every)| DeepProg { depth, style, out_every })
 }
 
+// ---------------------------------------------------------------- G-hibits
+
+/// Programs that make the *upper* bits of wide cells observable although `.` prints only the low
+/// byte: a polynomial of the inputs is computed with multiplication loops (constants up to 300,
+/// i.e. beyond the signed and unsigned 8-bit immediate ranges), then the value the generator knows
+/// it must have (it fixes the input bytes itself) is subtracted with that many `-`, which works at
+/// every width, and a zero test prints whether anything is left. Canonically nothing ever is.
+#[derive(Clone, Debug)]
+pub struct HiBitsProg {
+    /// the input bytes the program is paired with (small, so that the canonical run stays short)
+    pub inputs: Vec<u8>,
+    /// terms coef * product of selected inputs; `sel` bit i selects input i
+    pub terms: Vec<(u8, u16, bool)>,
+    pub print_low: bool,
+}
+
+impl HiBitsProg {
+    pub fn render(&self) -> String {
+        let m = self.inputs.len() as i64;
+        // cells: 0..m inputs, acc = m, t0 = m+1, t1 = m+2, t2 = m+3, flag = m+4
+        let (acc, t0, t1, t2, flag) = (m, m + 1, m + 2, m + 3, m + 4);
+        let mut w = W::new();
+        for i in 0..m {
+            w.go(i);
+            w.e(",");
+        }
+        let mut expected: i64 = 0;
+        for &(sel, coef, neg) in &self.terms {
+            let cells: Vec<i64> = (0..m).filter(|i| sel >> i & 1 == 1).collect();
+            let coef = 1 + (coef % 300) as i64;
+            let prod: i64 = cells.iter().map(|&c| self.inputs[c as usize] as i64).product::<i64>() * coef;
+            if prod > 6000 {
+                continue; // keeps the text and the canonical run short
+            }
+            expected += if neg { -prod } else { prod };
+            let ch = if neg { '-' } else { '+' };
+            match cells.len() {
+                0 => {
+                    w.go(acc);
+                    w.rep(ch, coef as u64);
+                }
+                1 => {
+                    // acc += coef * a  (a restored through t0)
+                    w.go(cells[0]);
+                    w.e("[-");
+                    w.go(acc);
+                    w.rep(ch, coef as u64);
+                    w.go(t0);
+                    w.e("+");
+                    w.go(cells[0]);
+                    w.e("]");
+                    w.mov(t0, cells[0]);
+                }
+                _ => {
+                    // t2 = a*b (inputs preserved), acc += coef * t2
+                    w.mul(cells[0], cells[1], t2, t0, t1);
+                    w.go(t2);
+                    w.e("[-");
+                    w.go(acc);
+                    w.rep(ch, coef as u64);
+                    w.go(t2);
+                    w.e("]");
+                }
+            }
+        }
+        w.go(acc);
+        if self.print_low {
+            w.e(".");
+        }
+        // take the known value out again; what is left must be zero at every width
+        w.rep(if expected >= 0 { '-' } else { '+' }, expected.unsigned_abs());
+        w.e("[[-]");
+        w.go(flag);
+        w.e("+");
+        w.go(acc);
+        w.e("]");
+        w.go(flag);
+        w.e(".");
+        w.s
+    }
+}
+
+pub fn hibits_prog() -> impl Strategy<Value = HiBitsProg> {
+    (vec(0u8..13, 1..4), vec((1u8..8, prop_oneof![2 => 0u16..300, 1 => 120u16..260], any::<bool>()), 1..5), any::<bool>()).prop_map(|(inputs, terms, print_low)| HiBitsProg { inputs, terms, print_low })
+}
+
 // ---------------------------------------------------------------- union
 
 #[derive(Clone, Debug)]
@@ -965,6 +1051,7 @@ pub enum ProgAst {
     Text(String),
     /// any program with non-command characters spliced in at character positions
     Commented(Box<ProgAst>, Vec<(u16, char)>),
+    HiBits(HiBitsProg),
 }
 
 impl ProgAst {
@@ -976,6 +1063,7 @@ impl ProgAst {
             ProgAst::Roam(p) => p.render(),
             ProgAst::Deep(p) => p.render(),
             ProgAst::Text(s) => s.clone(),
+            ProgAst::HiBits(p) => p.render(),
             ProgAst::Commented(p, ins) => {
                 let mut chars: Vec<char> = p.render().chars().collect();
                 for (pos, ch) in ins {
@@ -1001,6 +1089,14 @@ impl ProgAst {
             ProgAst::Deep(_) => "deep",
             ProgAst::Text(_) => "text",
             ProgAst::Commented(..) => "commented",
+            ProgAst::HiBits(_) => "hibits",
+        }
+    }
+    /// Some families fix the input stream they are paired with.
+    pub fn fixed_input(&self) -> Option<Vec<u8>> {
+        match self {
+            ProgAst::HiBits(p) => Some(p.inputs.clone()),
+            _ => None,
         }
     }
 }
@@ -1016,6 +1112,8 @@ pub struct Mix {
     pub deep: u32,
     /// raw/structured programs with comment characters spliced in (incl. characters that truncate to commands)
     pub commented: u32,
+    /// upper-bit observation programs (zero tests against a value the generator knows)
+    pub hibits: u32,
 }
 
 pub fn prog(mix: Mix) -> BoxedStrategy<ProgAst> {
@@ -1040,6 +1138,9 @@ pub fn prog(mix: Mix) -> BoxedStrategy<ProgAst> {
     }
     if mix.deep > 0 {
         v.push((mix.deep, deep_prog(400).prop_map(ProgAst::Deep).boxed()))
+    }
+    if mix.hibits > 0 {
+        v.push((mix.hibits, hibits_prog().prop_map(ProgAst::HiBits).boxed()))
     }
     if mix.commented > 0 {
         let inner = prop_oneof![raw_tokens(4, 60).prop_map(ProgAst::Raw), struct_prog(false).prop_map(ProgAst::Struct)];
